@@ -470,7 +470,7 @@ func (c *Ctx) c14handPly(variant int) []byte {
 	}
 	var sb strings.Builder
 	nv := 3 + c.Rng.Intn(4)
-	nf := 1 + c.Rng.Intn(3)
+	nf := c.Rng.Intn(4) // 0 faces: the vertex data is kept (b4c6223)
 	switch variant {
 	case 0, 3: // ascii, quads and triangles, extra property, comment, obj_info
 		sb.WriteString("ply" + nl + "format ascii 1.0" + nl + "comment made by hand" + nl + "obj_info x" + nl)
